@@ -41,6 +41,10 @@ pub struct Cfg {
     /// 3 = FDT duration 20 s in a session of 32 s, joins enumerated in the cycle at 24 s (the first instance has expired)
     #[serde(default)]
     pub sess_var: u8,
+    /// objects of six and more blocks received with object_max_cache_size = 12 bytes and no error memory: a join in
+    /// the middle of an object overflows the cache (the object is abandoned) and the next cycle must still deliver it
+    #[serde(default)]
+    pub small_cache: bool,
 }
 
 #[derive(Serialize, Deserialize, Clone, Debug)]
@@ -70,7 +74,7 @@ pub fn prepare(c: &Cfg) -> Result<Prepared, String> {
     let b = if c.scheme == Scheme::Raptor && c.cenc != 0 { 64 } else { b };
     let mut objs = Vec::new();
     for j in 0..c.nobj {
-        let l = if c.with_empty && j == c.nobj - 1 { 0 } else { len + if c.scheme == Scheme::Raptor { 8 } else { 2 } * j };
+        let l = if c.with_empty && j == c.nobj - 1 { 0 } else { len + if c.scheme == Scheme::Raptor { 8 } else { 2 } * j + if c.small_cache { 40 } else { 0 } };
         let mut o = ObjSpec::simple(l, 20 + j as u8);
         o.oti = if c.inherit { None } else { Some(OtiSpec::new(c.scheme, e, b, parity, c.inband)) };
         o.cenc = if l > 0 { c.cenc } else { 0 };
@@ -142,7 +146,12 @@ pub fn run_join(p: &Prepared, c: &Cfg, join: usize, g: &mut G) -> Option<(String
             g.joins_using_cache += 1;
         }
     }
-    let out = deliver_seq(&seq, recv_config(true), true);
+    let mut rc = recv_config(true);
+    if c.small_cache {
+        rc.object_max_cache_size = Some(12);
+        rc.max_objects_error = 0;
+    }
+    let out = deliver_seq(&seq, rc, true);
     if let Some(pm) = out.panic {
         return Some((format!("C16/panic/{}", panic_sig(&pm)), format!("panic: {}", pm)));
     }
@@ -197,20 +206,23 @@ pub fn configs(thorough: bool) -> Vec<Cfg> {
                                         if with_empty && nobj == 1 && cenc != 0 {
                                             continue;
                                         }
-                                        v.push(Cfg { scheme, nobj, inband, cenc, interval, full_fdt, fdt_e, with_empty, count, interleave, fdt_cenc: 0, split_sig: false, inherit: false, sess_var: 0 });
+                                        v.push(Cfg { scheme, nobj, inband, cenc, interval, full_fdt, fdt_e, with_empty, count, interleave, fdt_cenc: 0, split_sig: false, inherit: false, sess_var: 0, small_cache: false });
                                         if count == 1 && interleave == 1 && fdt_e == 1424 {
                                             for sess_var in [1u8, 2, 3] {
-                                                v.push(Cfg { scheme, nobj, inband, cenc, interval, full_fdt, fdt_e, with_empty, count, interleave, fdt_cenc: 0, split_sig: false, inherit: false, sess_var });
+                                                v.push(Cfg { scheme, nobj, inband, cenc, interval, full_fdt, fdt_e, with_empty, count, interleave, fdt_cenc: 0, split_sig: false, inherit: false, sess_var, small_cache: false });
                                             }
                                         }
+                                        if cenc == 0 && count == 1 && interleave == 1 && !with_empty && fdt_e == 1424 && scheme != Scheme::Raptor {
+                                            v.push(Cfg { scheme, nobj, inband, cenc, interval, full_fdt, fdt_e, with_empty, count, interleave, fdt_cenc: 0, split_sig: false, inherit: false, sess_var: 0, small_cache: true });
+                                        }
                                         if cenc == 0 && count == 1 && interleave == 1 && !with_empty && fdt_e == 1424 {
-                                            v.push(Cfg { scheme, nobj, inband, cenc, interval, full_fdt, fdt_e, with_empty, count, interleave, fdt_cenc: 0, split_sig: false, inherit: true, sess_var: 0 });
+                                            v.push(Cfg { scheme, nobj, inband, cenc, interval, full_fdt, fdt_e, with_empty, count, interleave, fdt_cenc: 0, split_sig: false, inherit: true, sess_var: 0, small_cache: false });
                                         }
                                         if cenc != 0 && count == 1 && interleave == 1 {
-                                            v.push(Cfg { scheme, nobj, inband, cenc, interval, full_fdt, fdt_e, with_empty, count, interleave, fdt_cenc: 0, split_sig: true, inherit: false, sess_var: 0 });
+                                            v.push(Cfg { scheme, nobj, inband, cenc, interval, full_fdt, fdt_e, with_empty, count, interleave, fdt_cenc: 0, split_sig: true, inherit: false, sess_var: 0, small_cache: false });
                                         }
                                         if count == 1 && interleave == 1 && (thorough || fdt_e == 512) {
-                                            v.push(Cfg { scheme, nobj, inband, cenc, interval, full_fdt, fdt_e, with_empty, count, interleave, fdt_cenc: 1 + (nobj as u8 % 3), split_sig: false, inherit: false, sess_var: 0 });
+                                            v.push(Cfg { scheme, nobj, inband, cenc, interval, full_fdt, fdt_e, with_empty, count, interleave, fdt_cenc: 1 + (nobj as u8 % 3), split_sig: false, inherit: false, sess_var: 0, small_cache: false });
                                         }
                                     }
                                 }
